@@ -147,6 +147,8 @@ MatchSeq(prog, ps, vs, i) ==
 (* join: pairs of elements with equal keys, ascending (inputs strictly ascending) *)
 KeyOf(T, v) == IF T.k = "tup" THEN v[1] ELSE v
 StrictlyAscending(keys) == \A i \in 1..(Len(keys) - 1) : keys[i] < keys[i + 1]
+BitsLess(x, y) == \E i \in 1..Len(x) : x[i] < y[i] /\ \A j \in 1..(i - 1) : x[j] = y[j]
+BitsStrictlyAscending(keys) == \A i \in 1..(Len(keys) - 1) : BitsLess(keys[i], keys[i + 1])
 JoinPairs(ea, eb, va, vb) ==
     LET ia == SelectSeq([i \in 1..Len(va) |-> i],
                         LAMBDA i : \E j \in 1..Len(vb) : KeyOf(ea, va[i]) = KeyOf(eb, vb[j]))
@@ -268,10 +270,11 @@ ExecStmt(prog, s, st) ==
                 rb == IF Dead(ra.st) THEN ra ELSE Eval(prog, s.b, ra.st)
             IN  IF Dead(rb.st) THEN R(rb.st, Unit)
                 ELSE LET ea == s.a.ty.e  eb == s.b.ty.e
-                         ka == [i \in 1..Len(ra.v) |-> KeyOf(ea, ra.v[i])]
-                         kb == [i \in 1..Len(rb.v) |-> KeyOf(eb, rb.v[i])]
-                     IN  IF ~(s.jty.k = "int" /\ ~IsSigned(s.jty.t)) \/ ~StrictlyAscending(ka) \/ ~StrictlyAscending(kb)
-                         THEN R(Oom(rb.st), Unit)     \* precondition of the join not met / key not an unsigned integer
+                         (* keys are compared as bit strings in the documented layout *)
+                         ka == [i \in 1..Len(ra.v) |-> Encode(prog, s.jty, KeyOf(ea, ra.v[i]))]
+                         kb == [i \in 1..Len(rb.v) |-> Encode(prog, s.jty, KeyOf(eb, rb.v[i]))]
+                     IN  IF ~BitsStrictlyAscending(ka) \/ ~BitsStrictlyAscending(kb)
+                         THEN R(Oom(rb.st), Unit)     \* precondition of the join (strictly ascending keys) not met
                          ELSE R(ExecPairs(prog, s, JoinPairs(ea, eb, ra.v, rb.v), 1, rb.st), Unit)
 
 Eval(prog, e, st) ==
